@@ -63,7 +63,12 @@ package gtree
 //@   ensures subtree [C17]: result == nil ==> bakedLines(dg.lastNodeFormat, dg.intermedialNodeFormat, current)
 //@   ensures stable: forall n *Node :: {n.brnch.value} !specDesc(current, n) ==> n.brnch.value == old(n.brnch.value)
 //@   ensures noval [C17]: !dg.enabledValidation ==> result == nil
+//@   ensures valid [C17]: dg.enabledValidation && result == nil ==> validated(current)
+//@   ensures stablePath: forall n *Node :: {n.brnch.path} !specDesc(current, n) ==> n.brnch.path == old(n.brnch.path)
 //@ loop gtree.defaultGrower.assemble#1
+//@   invariant stablePath: forall n *Node :: {n.brnch.path} !specDesc(current, n) ==> n.brnch.path == old(n.brnch.path)
+//@   invariant selfValid: dg.enabledValidation ==> validElem(current.name) && fsValid(specNodePath(current))
+//@   invariant doneValid: dg.enabledValidation ==> (forall j int, n *Node :: {specDesc(current.children[j], n)} 0 <= j && j < $i && specDesc(current.children[j], n) ==> validElem(n.name) && fsValid(specNodePath(n)))
 //@   invariant self: current.brnch.value == specLine(dg.lastNodeFormat, dg.intermedialNodeFormat, current)
 //@   invariant done: forall j int, n *Node :: {specDesc(current.children[j], n)} 0 <= j && j < $i && specDesc(current.children[j], n) ==> n.brnch.value == specLine(dg.lastNodeFormat, dg.intermedialNodeFormat, n)
 //@   invariant stable: forall n *Node :: {n.brnch.value} !specDesc(current, n) ==> n.brnch.value == old(n.brnch.value)
@@ -75,7 +80,9 @@ package gtree
 //@   use lemma lemmaDescLevel, lemmaDescUnique
 //@   ensures grown [C17]: result == nil ==> (forall k int, n *Node :: {specDesc(roots[k], n)} 0 <= k && k < len(roots) && specDesc(roots[k], n) ==> n.brnch.value == specLine(dg.lastNodeFormat, dg.intermedialNodeFormat, n))
 //@   ensures noval [C17]: !dg.enabledValidation ==> result == nil
+//@   ensures valid [C17]: dg.enabledValidation && result == nil ==> (forall k int :: {roots[k]} 0 <= k && k < len(roots) ==> validated(roots[k]))
 //@ loop gtree.defaultGrower.grow#1
+//@   invariant doneValid: dg.enabledValidation ==> (forall k int, n *Node :: {specDesc(roots[k], n)} 0 <= k && k < $i && specDesc(roots[k], n) ==> validElem(n.name) && fsValid(specNodePath(n)))
 //@   invariant done: forall k int, n *Node :: {specDesc(roots[k], n)} 0 <= k && k < $i && specDesc(roots[k], n) ==> n.brnch.value == specLine(dg.lastNodeFormat, dg.intermedialNodeFormat, n)
 
 // ---------------------------------------------------------------------------------------------
@@ -191,9 +198,16 @@ func specWasmDryReport(ext []string, roots []*Node, i int) string {
 // Placeholder (assumed) for the dry-run spreader of the wasm variant: colorize overwrites Node.name with its
 // colour-wrapped form, which breaks the global sibling-name invariant (wf#sibNames fails at its exit, tried), and the
 // count functions read the names it overwrites; it is not under contract.
+// wasmDryCalls, wasmDryRoots: bookkeeping of the calls of the dry-run spreader (how often, and with which forest), so
+// that Output can say that an accepted dry run reached the report with the validated forest of its input.
+//@ ghost var wasmDryCalls int
+//@ ghost var wasmDryRoots []*Node
 //@ func gtree.colorizeSpreader.spread
 //@   assumed
-//@   modifies out, wfail, counter.n, Node.name
+//@   ghostset wasmDryCalls := old(wasmDryCalls) + 1
+//@   ghostset wasmDryRoots := roots
+//@   requires validated [C17]: lastConfig != nil && (lastConfig.encode == encodeDefault ==> (forall k int :: {roots[k]} 0 <= k && k < len(roots) ==> validated(roots[k])))
+//@   modifies out, wfail, counter.n, Node.name, wasmDryCalls, wasmDryRoots
 // JSON output of the wasm variant: the same facts as formattedSpreaderSimple.spread[jsonNode] of the default build: one
 // encoder per call, Encode once per root, in order, with a record whose first level mirrors the root.
 //@ func gtree.Node.toJSONNode
@@ -225,6 +239,8 @@ func specWasmDryReport(ext []string, roots []*Node, i int) string {
 
 // Output of the wasm variant: the same rendering clause as OutputFromMarkdown of the default build.
 //@ func gtree.Output
-//@   modifies Node.children, Node.parent, Node.brnch.value, Node.brnch.path, Node.name, list.List.view, list.Element.backOf, counter.n, lastConfig, bufio.Scanner.pos, bufio.Scanner.failed, markdown.Parser.isSharpRoot, markdown.Parser.spaces, markdown.Parser.sep, out, wfail, lnNodes, encTrace, encoders, jsonNode.Children
+//@   modifies Node.children, Node.parent, Node.brnch.value, Node.brnch.path, Node.name, list.List.view, list.Element.backOf, counter.n, lastConfig, bufio.Scanner.pos, bufio.Scanner.failed, markdown.Parser.isSharpRoot, markdown.Parser.spaces, markdown.Parser.sep, out, wfail, lnNodes, encTrace, encoders, jsonNode.Children, wasmDryCalls, wasmDryRoots
 //@   use lemma lemmaBakedAllIsRenderAll
 //@   ensures render [C17]: exists c *config :: {witness(cfg)} fresh(c) && (c.encode == encodeDefault && !c.dryrun && result == nil ==> wfail == old(wfail) && (exists rs []*Node :: {witness(roots)} allRoots(rs) && out[w] == old(out[w]) ++ specRenderAll(c.lastNodeFormat, c.intermedialNodeFormat, rs, len(rs))))
+//@   ensures dry [C17]: exists c *config :: {witness(cfg)} fresh(c) && (c.dryrun && result == nil ==> wasmDryCalls == old(wasmDryCalls) + 1 && allRoots(wasmDryRoots))
+//@   ensures nodry [C17]: exists c *config :: {witness(cfg)} fresh(c) && (!c.dryrun ==> wasmDryCalls == old(wasmDryCalls))
